@@ -47,6 +47,17 @@ struct RowABC {
     b: String,
     c: Vec<i32>,
 }
+/// fields declared in REVERSE alphabetical order: `check_missing` names the first unvisited field in DECLARATION order
+#[derive(scylla::SerializeRow)]
+struct RowCBA {
+    c: Vec<i32>,
+    b: String,
+    a: i32,
+}
+pub fn struct_shapes_cba() -> String {
+    let t = tup3_value();
+    format!("c x {} ; b x {} ; a x {}", t.2.shape(false), t.1.shape(false), t.0.shape(false))
+}
 pub fn struct_shapes(n: usize) -> String {
     let t = tup3_value();
     let all = [format!("a x {}", t.0.shape(false)), format!("b x {}", t.1.shape(false)), format!("c x {}", t.2.shape(false))];
@@ -76,7 +87,7 @@ fn run_bindrow(case: &str, ctx: &mut Ctx) -> String {
     let rctx = RowSerializationContext::from_specs(&specs);
     // the values (as CqlValues: positional, or keyed)
     let mut vals: Vec<(String, CqlValue)> = Vec::new();
-    let fixed_kind = matches!(kind, "tup3" | "tup2" | "tup1" | "unit" | "u80" | "struct2" | "struct3");
+    let fixed_kind = matches!(kind, "tup3" | "tup2" | "tup1" | "unit" | "u80" | "struct2" | "struct3" | "structcba");
     for it in if fixed_kind { vec![] } else { items(segs[2]) } {
         let toks: Vec<&str> = it.split_whitespace().collect();
         let (name, r, shape) = if kind == "map" {
@@ -150,9 +161,9 @@ fn run_bindrow(case: &str, ctx: &mut Ctx) -> String {
             r
         }
         // derived structs (by name): the fields are the keys
-        "struct2" | "struct3" => {
+        "struct2" | "struct3" | "structcba" => {
             let n = if kind == "struct2" { 2 } else { 3 };
-            if segs[2] != struct_shapes(n) {
+            if segs[2] != (if kind == "structcba" { struct_shapes_cba() } else { struct_shapes(n) }) {
                 return "bad-case struct-values".to_owned();
             }
             let t = tup3_value();
@@ -168,6 +179,8 @@ fn run_bindrow(case: &str, ctx: &mut Ctx) -> String {
             expected_ok = all_found && unused.is_empty() && fits_all;
             let r = if n == 2 {
                 SerializedValues::from_serializable(&rctx, &RowAB { a: t.0, b: t.1.clone() })
+            } else if kind == "structcba" {
+                SerializedValues::from_serializable(&rctx, &RowCBA { c: t.2.clone(), b: t.1.clone(), a: t.0 })
             } else {
                 SerializedValues::from_serializable(&rctx, &RowABC { a: t.0, b: t.1.clone(), c: t.2.clone() })
             };
